@@ -203,3 +203,27 @@ Proof.
     eapply jmono_trans; [exact H1|apply on_job_down_mono]. }
   destruct (jm_outcome _ _ Hm Hk Hr) as (A & B & _). auto.
 Qed.
+
+(* Composition over ANY continuation: once a job carries the marker (t0, st), whatever
+   happens afterwards (other exits, results for other jobs, scans, user calls, any number
+   of passes) -- as long as the job itself is still unresolved and cached when a pass
+   runs after the grace period, that pass fails it with WorkerLostError naming the
+   ORIGINAL status and this job. *)
+Theorem loss_reported_in_any_continuation s1 j x1 t0 st tr x2 :
+  AllJ s1 -> get_job s1 j = Some x1 -> kind x1 = KApply -> worker_lost x1 = Some (t0, st) ->
+  get_job (run_from s1 tr) j = Some x2 -> incache x2 = true -> ready x2 = false ->
+  lost_timeout x1 < now (run_from s1 tr) - t0 ->
+  ready (tick_job (run_from s1 tr) x2) = true
+  /\ value (tick_job (run_from s1 tr) x2) = Some (PLost st j).
+Proof.
+  intros Ha Hg1 Hk Hw Hg2 Hc Hr Hd.
+  destruct (good_run tr s1 Ha) as [Ha2 Hm].
+  destruct (get_job_nth _ _ _ Hg1) as [Hj Hn1]. destruct (Hm _ _ Hn1) as (y & Hy & Hxy).
+  destruct (get_job_nth _ _ _ Hg2) as [_ Hn2]. assert (y = x2) by congruence. subst y.
+  destruct (Ha2 _ _ Hn2) as [_ Hid].
+  assert (Hk2 : kind x2 = KApply) by (rewrite (jm_kind _ _ Hxy); exact Hk).
+  assert (Hw2 : worker_lost x2 = Some (t0, st)) by (apply (jm_marker _ _ Hxy); exact Hw).
+  destruct (jm_limits _ _ Hxy) as (_ & _ & Hl).
+  destruct (tick_deadline (run_from s1 tr) x2 t0 st Hk2 Hc Hr Hw2) as [A B]; [rewrite Hl; exact Hd|].
+  split; [exact A|]. rewrite B. f_equal. f_equal. lia.
+Qed.
